@@ -12,4 +12,25 @@ theorem snapshotMsg_id (o : Opts) (m : Msg) : snapshotMsg o m = m := by
     | some d => cases m; simp_all [readAll]
   · rfl
 
+theorem bodyReader_snapshot (o : Opts) (m : Msg) (hc : captures o m = true) :
+    bodyReader (snapshot o m) = framedBody m (m.body.getD []) := by
+  simp [snapshot, hc, bodyReader, sectionOf]
+
+theorem mem_insertKV (x y : KV) (l : List KV) : y ∈ insertKV x l ↔ y = x ∨ y ∈ l := by
+  induction l with
+  | nil => simp [insertKV]
+  | cons z zs ih =>
+    unfold insertKV
+    split
+    · simp [ih]; constructor <;> (intro h; rcases h with h | h | h <;> simp [h])
+    · simp
+
+/-- Sorting the header list only permutes it. -/
+theorem mem_sortKV (y : KV) (l : List KV) : y ∈ sortKV l ↔ y ∈ l := by
+  induction l with
+  | nil => simp [sortKV]
+  | cons z zs ih =>
+    have : sortKV (z :: zs) = insertKV z (sortKV zs) := rfl
+    rw [this, mem_insertKV, ih]; simp
+
 end Martian.MessageView
